@@ -10,6 +10,7 @@ from vlib import *
 STRUCT = {"kind", "block", "frame"}
 RELEVANT = {
     "C01": STRUCT | {"count", "value", "ident", "poison", "baddrop", "drops", "frees", "drain", "stray", "out", "overrun"},
+    "C02": STRUCT | {"count", "poison", "baddrop", "drops", "frees", "drain", "stray", "value"},
     "C03": STRUCT | {"verdict", "count", "panicked", "seen"},
     "C04": STRUCT | {"count"},
     "C05": {"layout", "frees", "alloc", "align", "size", "leak", "drops", "baddrop", "overrun", "drain", "poison"},
